@@ -39,6 +39,8 @@ type c10Params struct {
 	// upstream fault
 	Req   *ReqInfo          `json:"req,omitempty"`
 	Fault harness.FaultKind `json:"fault,omitempty"`
+	// Twice: the same request fails twice in a row (the first time and the next time it is made)
+	Twice bool `json:"twice,omitempty"`
 	// second fault (pairs): statement index in the first retry attempt
 	K2    int    `json:"k2,omitempty"`
 	Site2 string `json:"site2,omitempty"`
@@ -69,7 +71,11 @@ func (p *c10Params) describe() string {
 		return fmt.Sprintf("operating system: %s on the database or journal file fails with %s (call #%s of each thread)", f[0], f[1], f[2])
 	}
 	if p.Req != nil {
-		return fmt.Sprintf("upstream %s on %s(%s) #%d", p.Fault, p.Req.Method, p.Req.What, p.Req.Nth)
+		tw := ""
+		if p.Twice {
+			tw = ", and again the next time the request is made"
+		}
+		return fmt.Sprintf("upstream %s on %s(%s) #%d%s", p.Fault, p.Req.Method, p.Req.What, p.Req.Nth, tw)
 	}
 	if p.K2 > 0 {
 		return fmt.Sprintf("db statement #%d [%s] at %s, then in the retry statement #%d [%s] at %s", p.K, clipS(p.Stmt, 50), p.Site, p.K2, clipS(p.Stmt2, 50), p.Site2)
@@ -83,7 +89,11 @@ func (p *c10Params) signature(what string) string {
 		return fmt.Sprintf("%s label=%s os=%s/%s", what, p.Label, f[0], f[1])
 	}
 	if p.Req != nil {
-		return fmt.Sprintf("%s label=%s upstream=%s/%s", what, p.Label, p.Req.What, p.Fault)
+		tw := ""
+		if p.Twice {
+			tw = "+twice"
+		}
+		return fmt.Sprintf("%s label=%s upstream=%s/%s%s", what, p.Label, p.Req.What, p.Fault, tw)
 	}
 	if p.K2 > 0 {
 		return fmt.Sprintf("%s label=%s site=%s stmt=%s retry-site=%s retry-stmt=%s", what, p.Label, p.Site, clipS(p.Stmt, 48), p.Site2, clipS(p.Stmt2, 48))
@@ -142,7 +152,7 @@ func c10Fault(j *orch.Job, r *orch.Result) error {
 	if !p.Resume && p.Req != nil {
 		var once int32
 		n.Fake.SetFault(func(rq harness.Req) harness.Fault {
-			if rq.Cur != p.Block || rq.Method != p.Req.Method || rq.Nth != p.Req.Nth {
+			if rq.Cur != p.Block || rq.Method != p.Req.Method || !(rq.Nth == p.Req.Nth || (p.Twice && rq.Nth == p.Req.Nth+1)) {
 				return harness.Fault{}
 			}
 			if p.Req.Hash != "" && fmt.Sprintf("%x", rq.Hash[:]) != p.Req.Hash {
@@ -151,7 +161,11 @@ func c10Fault(j *orch.Job, r *orch.Result) error {
 			if p.Req.Method != "raw-data" && rq.Height != p.Req.Height {
 				return harness.Fault{}
 			}
-			if atomic.CompareAndSwapInt32(&once, 0, 1) {
+			lim := int32(1)
+			if p.Twice {
+				lim = 2
+			}
+			if atomic.AddInt32(&once, 1) <= lim {
 				atomic.AddInt64(&injected, 1)
 				return harness.Fault{Kind: p.Fault}
 			}
@@ -299,6 +313,15 @@ func checkC10(c *Ctx) *orch.Outcome {
 				}
 			}
 		}
+		// the same block-level request fails twice in a row (directory block, factoid block)
+		twice := map[string]bool{}
+		for i := range prof.Reqs {
+			rq := prof.Reqs[i]
+			if (rq.Method == "dblock-by-height" || rq.Method == "fblock-by-height") && !twice[rq.Method] {
+				twice[rq.Method] = true
+				cases = append(cases, c10Params{Dir: dir, Block: b, Label: prof.Label, Req: &prof.Reqs[i], Fault: upKinds[(int(b)+1)%len(upKinds)], Twice: true})
+			}
+		}
 		// pairs: a second statement failure in the retry attempt
 		npairs := 2
 		if c.Thorough() {
@@ -317,7 +340,7 @@ func checkC10(c *Ctx) *orch.Outcome {
 		// BEGIN and COMMIT of every special block are always kept; the rest is sampled
 		var must, rest []c10Params
 		for _, cs := range cases {
-			if cs.Req == nil && cs.K2 == 0 && (strings.HasPrefix(cs.Stmt, "begin") || strings.HasPrefix(cs.Stmt, "commit")) {
+			if (cs.Req == nil && cs.K2 == 0 && (strings.HasPrefix(cs.Stmt, "begin") || strings.HasPrefix(cs.Stmt, "commit"))) || cs.Twice {
 				must = append(must, cs)
 			} else {
 				rest = append(rest, cs)
